@@ -744,6 +744,35 @@ fn client_handler<State>(
 }
 
 /// Gets the correct handler for the given request.
+/// Runs the (private) default connection handler on the given stream (verification harness only).
+#[cfg(humphrey_verif)]
+#[allow(clippy::too_many_arguments)]
+pub fn verif_client_handler<State>(
+    stream: Stream,
+    subapps: Arc<Vec<SubApp<State>>>,
+    default_subapp: Arc<SubApp<State>>,
+    error_handler: Arc<ErrorHandler>,
+    state: Arc<State>,
+    monitor: MonitorConfig,
+    timeout: Option<Duration>,
+) {
+    client_handler(
+        stream,
+        subapps,
+        default_subapp,
+        error_handler,
+        state,
+        monitor,
+        timeout,
+    )
+}
+
+/// The (crate-private) default error handler (verification harness only).
+#[cfg(humphrey_verif)]
+pub fn verif_error_handler(status_code: StatusCode) -> Response {
+    error_handler(status_code)
+}
+
 pub(crate) fn get_handler<'a, State>(
     request: &'a Request,
     subapps: &'a [SubApp<State>],
